@@ -94,6 +94,57 @@ type roamFence struct {
 	scan    string // ROAM key pattern meters SCAN glob
 	offKey  bool   // re-defined to fence another key (NEARBY <key>-off ...): silent for this round's SETs
 	deleted bool   // DELCHAN / DELHOOK issued, not re-created yet
+	// case-only variations of the definition (every one is a different definition: Hook.Equals is byte-identity)
+	kwLower     bool   // keywords in lower case (nearby ... fence ... roam)
+	roamKeyCase bool   // roam key with its letters' case swapped: another (absent) collection
+	metaName    string // META <metaName> <metaVal> before the command ("" = none)
+	metaVal     string
+	epCase      bool // webhook endpoint ...?v=A instead of ...?v=a
+}
+
+func swapCase(s string) string {
+	b := []byte(s)
+	for i, c := range b {
+		switch {
+		case c >= 'a' && c <= 'z':
+			b[i] = c - 32
+		case c >= 'A' && c <= 'Z':
+			b[i] = c + 32
+		}
+	}
+	return string(b)
+}
+
+// the collection a fence roams, as it is defined now
+func roamKeyOf(rd *round, f *roamFence) string {
+	if f.roamKeyCase {
+		return swapCase(rd.roamKey)
+	}
+	return rd.roamKey
+}
+
+// what SETHOOK / SETCHAN stores of a definition and Hook.Equals compares (Model.HookDef.hdef)
+type hookDef struct {
+	key, name string
+	endpoints []string
+	metas     [][2]string
+	args      []string
+}
+
+func (d hookDef) tokens() []string {
+	t := []string{model.H(d.key), model.H(d.name), "0", "E"}
+	for _, e := range d.endpoints {
+		t = append(t, model.H(e))
+	}
+	t = append(t, "M")
+	for _, m := range d.metas {
+		t = append(t, model.H(m[0])+":"+model.H(m[1]))
+	}
+	t = append(t, "A")
+	for _, a := range d.args {
+		t = append(t, model.H(a))
+	}
+	return t
 }
 
 // a re-definition of a fence under its own name, between two SETs
@@ -347,19 +398,33 @@ func fenceArgs(rd *round, f *roamFence) []string {
 	if f.offKey {
 		key += "-off"
 	}
-	args := []string{"NEARBY", key}
+	kw := func(w string) string {
+		if f.kwLower {
+			return strings.ToLower(w)
+		}
+		return w
+	}
+	args := []string{kw("NEARBY"), key}
 	if f.detect != "" {
-		args = append(args, "DETECT", f.detect)
+		args = append(args, kw("DETECT"), f.detect)
 	}
-	args = append(args, "FENCE")
+	args = append(args, kw("FENCE"))
 	if f.nodwell {
-		args = append(args, "NODWELL")
+		args = append(args, kw("NODWELL"))
 	}
-	args = append(args, "ROAM", rd.roamKey, f.pattern, ff(f.meters))
+	args = append(args, kw("ROAM"), roamKeyOf(rd, f), f.pattern, ff(f.meters))
 	if f.scan != "" {
-		args = append(args, "SCAN", f.scan)
+		args = append(args, kw("SCAN"), f.scan)
 	}
 	return args
+}
+
+// the META clause in front of the command
+func metaArgs(f *roamFence) []string {
+	if f.metaName == "" {
+		return nil
+	}
+	return []string{"META", f.metaName, f.metaVal}
 }
 
 // regSet: the registry-history token of a SETCHAN / SETHOOK (see ocaml/roam/handlers.ml, regsel)
@@ -482,6 +547,7 @@ type round struct {
 	center       pos
 	baseR        float64
 	redefs       []redef // scripted re-definitions (steps of category "redef")
+	second       map[int]pos // scripted steps of category "expired": the position of the re-SET after the deadline
 }
 
 func runC20(r *hx.Result, cfg hx.Config) {
@@ -569,9 +635,31 @@ func runC20(r *hx.Result, cfg hx.Config) {
 				rs(0, "delset", 0, ""), rs(1, "delset", 0, ""), set("b", 20.0006, 20),
 				rs(0, "detect", 0, ""), set("b", 20.0005, 20), rs(0, "detect", 0, ""), set("b", 20.0004, 20),
 				rs(0, "del", 0, ""), set("b", 20.0005, 20), rs(0, "del", 0, ""), set("b", 20.0006, 20),
-				rs(0, "kind", 0, ""), rs(1, "kind", 0, ""), set("a", 20.03, 20)}}
+				rs(0, "kind", 0, ""), rs(1, "kind", 0, ""), set("a", 20.03, 20),
+				// changes in letter case only (Hook.Equals is byte-identity: each must take effect and answer 1)
+				rs(0, "pattern", 0, "[abc]"), set("a", 20.0009, 20),
+				rs(0, "case-pattern", 0, ""), set("a", 20.001, 20), set("c", 20.0011, 20), rs(0, "case-pattern", 0, ""), set("a", 20.0009, 20),
+				rs(0, "case-roamkey", 0, ""), rs(1, "case-roamkey", 0, ""), set("b", 20.0005, 20), set("b", 20.03, 20),
+				rs(0, "case-roamkey", 0, ""), rs(1, "case-roamkey", 0, ""), set("b", 20.0006, 20),
+				rs(0, "case-keyword", 0, ""), rs(1, "case-keyword", 0, ""), set("b", 20.0005, 20), rs(0, "same", 0, ""), rs(1, "same", 0, ""),
+				rs(0, "case-meta", 0, ""), rs(0, "case-meta", 0, ""), rs(0, "case-meta", 0, ""), rs(1, "case-meta", 0, ""), rs(1, "case-meta", 0, ""),
+				set("b", 20.0004, 20), rs(1, "case-endpoint", 0, ""), set("b", 20.03, 20), rs(1, "case-endpoint", 0, ""), rs(0, "case-endpoint", 0, ""),
+				set("b", 20.0005, 20)}}
 		rdf.redefs = redefs
 		corpus = append(corpus, rdf)
+	}
+	// an object written with a TTL and written again just after its deadline, before the sweep: the second
+	// SET is a move from the stored position (faraway for the neighbours left; under NODWELL no second nearby)
+	{
+		set := func(id string, lat, lon float64) step { return step{id: id, p: pos{lat, lon}, cat: "corpus"} }
+		ex := func(id string, lat, lon float64) step { return step{id: id, p: pos{lat, lon}, cat: "expired"} }
+		corpus = append(corpus, round{key: "ttl", roamKey: "ttl", fences: []roamFence{
+			{name: "ttlchan", kind: "chan", pattern: "*", meters: 1000},
+			{name: "ttlnd", kind: "chan", pattern: "*", meters: 1000, nodwell: true},
+			{name: "ttlhook", kind: "hook", pattern: "*", meters: 1000}},
+			script: []step{set("a", 20, 20), set("b", 20.001, 20), set("c", 20.003, 20.001),
+				ex("b", 20.002, 20), ex("b", 20.001, 20), set("a", 20.0012, 20), ex("a", 20.03, 20), ex("c", 20.0013, 20), set("b", 20.002, 20)},
+			second: map[int]pos{3: {20.05, 20}, 4: {20.0015, 20}, 6: {20.0016, 20}, 7: {20.04, 20.001}}})
 	}
 	for i := range corpus {
 		runRound(r, cfg, rng, drv, s, wh, &corpus[i], fmt.Sprintf("corpus%d", i))
@@ -653,31 +741,62 @@ func runRound(r *hx.Result, cfg hx.Config, rng *rand.Rand, drv *model.Driver, s 
 	var liveFence *roamFence
 	var regOps []string // this round's history of hook commands, for the registry model
 	hookExpected := map[string][]string{}
-	// define issues SETCHAN / SETHOOK for the fence as it is now described; want = the expected integer reply
-	// (1 = created or replaced, 0 = identical to the existing definition)
-	define := func(f *roamFence, want int64, equal bool) {
+	// define issues SETCHAN / SETHOOK for the fence as it is now described.  The expected integer reply is 0
+	// exactly when the definition is byte-identical to the one in force under the name (1 = created or
+	// replaced): the harness compares the definitions itself (oracle) and asks Model.HookDef.hook_equals_by
+	// with the tests t38x read from Hook.Equals (correspondence)
+	lastDef := map[string]hookDef{}
+	hookURL := func(f *roamFence) string {
+		return wh.URL("/"+f.name) + map[bool]string{false: "?v=a", true: "?v=A"}[f.epCase]
+	}
+	define := func(f *roamFence) {
 		args := fenceArgs(rd, f)
+		full := append(append([]string{}, metaArgs(f)...), args...)
+		nd := hookDef{key: args[1], name: f.name, args: args}
+		if f.metaName != "" {
+			nd.metas = [][2]string{{f.metaName, f.metaVal}}
+		}
 		var v srv.Value
 		switch f.kind {
 		case "chan":
-			v = c.MustDo(append([]string{"SETCHAN", f.name}, args...)...)
+			nd.endpoints = []string{"local://" + f.name}
+			v = c.MustDo(append([]string{"SETCHAN", f.name}, full...)...)
 		case "hook":
-			v = c.MustDo(append([]string{"SETHOOK", f.name, wh.URL("/" + f.name)}, args...)...)
+			nd.endpoints = []string{hookURL(f)}
+			v = c.MustDo(append([]string{"SETHOOK", f.name, hookURL(f)}, full...)...)
 		}
 		if v.IsErr() {
 			panic("SETCHAN/SETHOOK refused: " + v.String())
 		}
-		regOps = append(regOps, regSet(rd, f, f.kind == "chan", equal))
+		prev, had := lastDef[f.name]
+		same := had && reflect.DeepEqual(prev, nd)
+		if had {
+			if mod := drv.Ask(append(append(append([]string{"hequals"}, prev.tokens()...), "/"), nd.tokens()...)...); mod != model.B(same) {
+				r.Fail(hx.Failure{Kind: "correspondence", Signature: "roam-equals-model",
+					What: "Hook.Equals as read from the source (Model.HookDef.hook_equals_by equals_checks) is not byte-identity of the two definitions",
+					Case: map[string]interface{}{"round": label, "name": f.name, "previous": strings.Join(prev.args, " "), "new": strings.Join(nd.args, " ")}, Impl: same, Model: mod})
+			}
+		}
+		lastDef[f.name] = nd
+		regOps = append(regOps, regSet(rd, f, f.kind == "chan", same))
+		want := int64(1)
+		if same {
+			want = 0
+		}
 		if v.Kind != ':' || v.Int != want {
-			r.Fail(hx.Failure{Kind: "oracle", Signature: "roam-sethook-reply", What: fmt.Sprintf("SETCHAN/SETHOOK %s answered %s, expected %d (1 = created or replaced, 0 = unchanged)", f.name, v.String(), want),
-				Case: map[string]interface{}{"round": label, "args": strings.Join(args, " ")}})
+			what := fmt.Sprintf("SETCHAN/SETHOOK %s %s answered %s, expected %d (1 = created or replaced, 0 = identical to the definition in force)", f.name, strings.Join(full, " "), v.String(), want)
+			if had {
+				what += fmt.Sprintf("; definition in force: %s | endpoints %v | metas %v", strings.Join(prev.args, " "), prev.endpoints, prev.metas)
+			}
+			r.Fail(hx.Failure{Kind: "oracle", Signature: "roam-sethook-reply", What: what,
+				Case: map[string]interface{}{"round": label, "args": strings.Join(full, " ")}})
 		}
 	}
 	for i := range rd.fences {
 		f := &rd.fences[i]
 		switch f.kind {
 		case "chan", "hook":
-			define(f, 1, false)
+			define(f)
 		case "live":
 			live, err = fencex.NewLive(s, fenceArgs(rd, f)...)
 			if err != nil {
@@ -707,52 +826,74 @@ func runRound(r *hx.Result, cfg hx.Config, rng *rand.Rand, drv *model.Driver, s 
 			regOps = append(regOps, strings.Join([]string{"D", model.H(f.name), model.B(isChan)}, ","))
 		}
 		r.Dist("redefine:" + re.mod)
-		if f.deleted && re.mod != "del" {
-			// any re-definition of a deleted fence creates it
-			f.deleted = false
-			switch re.mod {
-			case "radius":
-				f.meters = re.meters
-			case "pattern":
-				f.pattern = re.pattern
+		wasDeleted := f.deleted
+		if f.deleted && re.mod != "del" && re.mod != "kind" {
+			f.deleted = false // any re-definition of a deleted fence creates it
+		}
+		switch re.mod {
+		case "radius":
+			f.meters = re.meters
+			define(f)
+		case "pattern":
+			f.pattern = re.pattern
+			define(f)
+		case "nodwell":
+			f.nodwell = !f.nodwell
+			define(f)
+		case "key":
+			f.offKey = !f.offKey
+			define(f)
+		case "detect":
+			f.detect = map[bool]string{true: "inside", false: ""}[f.detect == ""]
+			define(f)
+		case "same": // control: an identical re-issue takes the Equals early return
+			define(f)
+		// changes in letter case only: each is a different definition and must take effect
+		case "case-pattern":
+			f.pattern = swapCase(f.pattern)
+			define(f)
+		case "case-roamkey":
+			f.roamKeyCase = !f.roamKeyCase
+			define(f)
+		case "case-keyword":
+			f.kwLower = !f.kwLower
+			define(f)
+		case "case-meta":
+			if f.metaName == "" {
+				f.metaName, f.metaVal = "tag", "val"
+			} else if rng.Intn(2) == 0 {
+				f.metaName = swapCase(f.metaName)
+			} else {
+				f.metaVal = swapCase(f.metaVal)
 			}
-			define(f, 1, false)
-		} else {
-			switch re.mod {
-			case "radius":
-				same := f.meters == re.meters
-				f.meters = re.meters
-				define(f, map[bool]int64{true: 0, false: 1}[same], same)
-			case "pattern":
-				same := f.pattern == re.pattern
-				f.pattern = re.pattern
-				define(f, map[bool]int64{true: 0, false: 1}[same], same)
-			case "nodwell":
-				f.nodwell = !f.nodwell
-				define(f, 1, false)
-			case "key":
-				f.offKey = !f.offKey
-				define(f, 1, false)
-			case "detect":
-				f.detect = map[bool]string{true: "inside", false: ""}[f.detect == ""]
-				define(f, 1, false)
-			case "same": // control: identical re-issue takes the Equals early return
-				define(f, 0, true)
-			case "delset":
+			define(f)
+		case "case-endpoint":
+			if isChan {
+				f.kwLower = !f.kwLower
+			} else {
+				f.epCase = !f.epCase
+			}
+			define(f)
+		case "delset":
+			if !wasDeleted {
 				del()
-				define(f, 1, false)
-			case "del":
-				if f.deleted {
-					f.deleted = false
-					define(f, 1, false)
-				} else {
-					del()
-					f.deleted = true
-				}
-			case "kind": // a hook and a channel cannot share a name: refused, nothing changes
+				delete(lastDef, f.name)
+			}
+			define(f)
+		case "del":
+			if wasDeleted {
+				f.deleted = false
+				define(f)
+			} else {
+				del()
+				delete(lastDef, f.name)
+				f.deleted = true
+			}
+		case "kind": // a hook and a channel cannot share a name: refused, nothing changes
+			if !wasDeleted {
 				var v srv.Value
 				if isChan {
-					v = c.MustDo(append([]string{"SETHOOK", f.name, wh.URL("/" + f.name)}, fenceArgs(rd, f)...)...)
+					v = c.MustDo(append([]string{"SETHOOK", f.name, hookURL(f)}, fenceArgs(rd, f)...)...)
 				} else {
 					v = c.MustDo(append([]string{"SETCHAN", f.name}, fenceArgs(rd, f)...)...)
 				}
@@ -844,11 +985,94 @@ func runRound(r *hx.Result, cfg hx.Config, rng *rand.Rand, drv *model.Driver, s 
 		sub.Collect() // del / drop notifications are C05's matter
 		r.Dist("roam-collection-wiped")
 	}
+	// evaluate: one SET (already executed, its channel messages in msgs) against every fence of the round
+	evaluate := func(i int, st step, old *pos, msgs, liveGot []fencex.Msg) {
+		byHook := map[string][]fencex.Msg{}
+		for _, m := range msgs {
+			byHook[m.Channel] = append(byHook[m.Channel], m)
+		}
+		for fi := range rd.fences {
+			f := rd.fences[fi]
+			rk := roamKeyOf(rd, &f)
+			e := expect(drv, f, rd.key, rk, st.id, old, st.p, state[rk], regOps)
+			var got []fencex.Msg
+			switch f.kind {
+			case "chan":
+				got = byHook[f.name]
+			case "hook":
+				for _, x := range e.model {
+					hookExpected[f.name] = append(hookExpected[f.name], x.kind+":"+x.id+":"+x.meters+":"+st.id)
+				}
+				continue
+			case "live":
+				if live == nil || liveFence == nil {
+					continue
+				}
+				got = liveGot
+			}
+			checkStep(drv, r, rd, f, st, old, e, got, label, i)
+		}
+	}
+	// runExpired: the object is written with a TTL and written again shortly after the deadline, before the
+	// background sweep can delete it - one atomic EVAL: SET ... EX 0.02 <p1>; spin 60 ms; GET; SET <p2>.
+	// The second SET is a move from p1 (GET returned the object): previous position = what was stored
+	// immediately before, whatever its deadline (Model.RoamSet, c20_stored_is_old).
+	runExpired := func(i int, st step, old *pos, p2 pos) {
+		lq := func(a string) string { return "[==[" + a + "]==]" }
+		call := func(args []string) string {
+			q := make([]string, len(args))
+			for k, a := range args {
+				q[k] = lq(a)
+			}
+			return "tile38.call(" + strings.Join(q, ",") + ")"
+		}
+		set1 := append([]string{"SET", rd.key, st.id, "EX", "0.02"}, setGeom(rd.key, st.id, st.p)...)
+		set2 := append([]string{"SET", rd.key, st.id}, setGeom(rd.key, st.id, p2)...)
+		script := call(set1) + " local t = os.clock() while os.clock() - t < 0.06 do end local g = " +
+			call([]string{"GET", rd.key, st.id}) + " " + call(set2) + " return g"
+		v := c.MustDo("EVAL", script, "0")
+		if v.IsErr() {
+			panic("EVAL refused: " + v.String())
+		}
+		msgs, err := sub.Collect()
+		if err != nil {
+			panic(err)
+		}
+		r.Dist("step:expired")
+		var m1, m2 []fencex.Msg
+		for _, m := range msgs {
+			if sameObject(m.Object, rd.key, st.id, st.p) {
+				m1 = append(m1, m)
+			} else {
+				m2 = append(m2, m)
+			}
+		}
+		state[rd.key][st.id] = st.p
+		evaluate(i, step{st.id, st.p, "expired-1 (SET ... EX 0.02)"}, old, m1, nil)
+		// what GET returned between the deadline and the second SET
+		stored := v.Kind == '$' && v.Str != "" && sameObject(json.RawMessage(v.Str), rd.key, st.id, st.p)
+		if !stored {
+			r.Fail(hx.Failure{Kind: "oracle", Signature: "roam-ttl-get", What: "GET 40 ms after the deadline, inside the script and before any sweep, did not return the object as written: " + v.String(),
+				Case: map[string]interface{}{"round": label, "step": i, "script": script}})
+		}
+		var old2 *pos
+		if mod := drv.Ask("setold", "60", model.H(st.id), model.H(st.id)+",20"); (mod == "1") != stored {
+			r.Fail(hx.Failure{Kind: "correspondence", Signature: "roam-setold-model", What: "Model.RoamSet.set_details disagrees with GET about the previous object of the second SET",
+				Case: map[string]interface{}{"round": label, "step": i}, Impl: stored, Model: mod})
+		}
+		if stored {
+			q := st.p
+			old2 = &q
+		}
+		state[rd.key][st.id] = p2
+		evaluate(i, step{st.id, p2, "expired-2 (SET again 40 ms after the deadline of SET ... EX 0.02, in the same EVAL; GET returned the object)"}, old2, m2, nil)
+	}
 	for i := 0; i < n; i++ {
 		if i == resetAt {
 			wipe(rng.Intn(2) == 0)
 		}
 		var st step
+		var p2 pos
 		if rd.script != nil {
 			st = rd.script[i]
 			if st.cat == "del" {
@@ -857,6 +1081,7 @@ func runRound(r *hx.Result, cfg hx.Config, rng *rand.Rand, drv *model.Driver, s 
 				sub.Collect()
 				continue
 			}
+			p2 = rd.second[i]
 			if st.cat == "redef" {
 				k, _ := strconv.Atoi(st.id)
 				redefine(rd.redefs[k])
@@ -866,11 +1091,12 @@ func runRound(r *hx.Result, cfg hx.Config, rng *rand.Rand, drv *model.Driver, s 
 		} else {
 			// between two SETs, now and then, a fence of the round is re-defined under its own name
 			if i >= len(rd.ids) && rng.Intn(4) == 0 {
-				mods := []string{"radius", "radius", "pattern", "pattern", "nodwell", "key", "same", "delset", "del", "kind", "detect"}
+				mods := []string{"radius", "radius", "pattern", "pattern", "nodwell", "key", "same", "delset", "del", "kind", "detect",
+					"case-pattern", "case-pattern", "case-roamkey", "case-keyword", "case-meta", "case-endpoint"}
 				re := redef{fence: rng.Intn(len(rd.fences)), mod: mods[rng.Intn(len(mods))]}
 				re.meters = math.Round(rd.baseR*[]float64{1, 0.5, 2, 1.5, 0.25}[rng.Intn(5)]*1000) / 1000
 				re.pattern = roamPatterns[rng.Intn(len(roamPatterns))]
-				if f := rd.fences[re.fence]; f.scan != "" && re.mod == "pattern" {
+				if f := rd.fences[re.fence]; f.scan != "" && (re.mod == "pattern" || re.mod == "case-pattern") {
 					re.mod = "radius" // the SCAN fence keeps its neighbour pattern
 				}
 				redefine(re)
@@ -903,11 +1129,22 @@ func runRound(r *hx.Result, cfg hx.Config, rng *rand.Rand, drv *model.Driver, s 
 			if cur, ok := state[rd.key][st.id]; ok && rng.Intn(12) == 0 {
 				st.p, st.cat = cur, "stay"
 			}
+			// now and then the object carries a short TTL and is written again just after its deadline
+			if live == nil && i >= len(rd.ids) && rng.Intn(10) == 0 {
+				p2 = place(rng, anchor, rf.meters, cats[rng.Intn(len(cats))])
+				if p2 != st.p {
+					st.cat = "expired"
+				}
+			}
 		}
 		var old *pos
 		if p, ok := state[rd.key][st.id]; ok {
 			q := p
 			old = &q
+		}
+		if st.cat == "expired" {
+			runExpired(i, st, old, p2)
+			continue
 		}
 		v := c.MustDo(append([]string{"SET", rd.key, st.id}, setGeom(rd.key, st.id, st.p)...)...)
 		if v.IsErr() {
@@ -919,10 +1156,6 @@ func runRound(r *hx.Result, cfg hx.Config, rng *rand.Rand, drv *model.Driver, s 
 			panic(err)
 		}
 		r.Dist("step:" + st.cat)
-		byHook := map[string][]fencex.Msg{}
-		for _, m := range msgs {
-			byHook[m.Channel] = append(byHook[m.Channel], m)
-		}
 		var liveGot []fencex.Msg
 		if live != nil {
 			// delimit with the sync write, then read up to and including its message
@@ -944,26 +1177,7 @@ func runRound(r *hx.Result, cfg hx.Config, rng *rand.Rand, drv *model.Driver, s 
 			}
 			sub.Collect() // the sync write's channel messages are not evaluated
 		}
-		for fi := range rd.fences {
-			f := rd.fences[fi]
-			e := expect(drv, f, rd.key, rd.roamKey, st.id, old, st.p, state[rd.roamKey], regOps)
-			var got []fencex.Msg
-			switch f.kind {
-			case "chan":
-				got = byHook[f.name]
-			case "hook":
-				for _, x := range e.model {
-					hookExpected[f.name] = append(hookExpected[f.name], x.kind+":"+x.id+":"+x.meters+":"+st.id)
-				}
-				continue
-			case "live":
-				if live == nil || liveFence == nil {
-					continue
-				}
-				got = liveGot
-			}
-			checkStep(drv, r, rd, f, st, old, e, got, label, i)
-		}
+		evaluate(i, st, old, msgs, liveGot)
 	}
 	// webhook deliveries: the whole sequence of the round
 	for name, want := range hookExpected {
@@ -996,6 +1210,8 @@ func runRound(r *hx.Result, cfg hx.Config, rng *rand.Rand, drv *model.Driver, s 
 	c.MustDo("PDELCHAN", "pcls*")
 	c.MustDo("PDELCHAN", "redef*")
 	c.MustDo("PDELHOOK", "redef*")
+	c.MustDo("PDELCHAN", "ttl*")
+	c.MustDo("PDELHOOK", "ttl*")
 	c.MustDo("PDELHOOK", rd.key+"*")
 }
 
